@@ -93,3 +93,10 @@ Definition mt_program : program :=
      fn_body := (EBlock [STail (EMatch (ECall "extern::migrate_contract" [(ECall "App::app_mut" [(EField (EVar "self") "app")]); (ECall "into" [(EVar "sender")]); (ECall "into" [(EField (EVar "self") "contract_addr")]); (EField (EVar "self") "msg"); (EVar "new_code_id")]) [(PCon "Ok" [PVar "map_err_v"], ECon "Ok" [EVar "map_err_v"]); (PCon "Err" [PVar "map_err_e"], ECon "Err" [ECall "downcast_error" [EVar "map_err_e"]])])]) |};
     {| fn_name := "downcast_error"; fn_params := ["err"]; fn_consts := [];
      fn_body := (EBlock [STail (EIf (ECall "anyhow::is" [(EVar "err"); EConst (VStr "Error")]) (EBlock [STail (ECall "unwrap" [(ECall "anyhow::downcast" [(EVar "err"); EConst (VStr "Error")])])]) (EIf (ECall "anyhow::is" [(EVar "err"); EConst (VStr "StdError")]) (EBlock [STail (ECon "Into::into" [(ECall "unwrap" [(ECall "anyhow::downcast" [(EVar "err"); EConst (VStr "StdError")])])])]) (EBlock [STail (ECon "Into::into" [(ECon "StdError::GenericErr" [(ECall "to_string" [(EVar "err")])])])])))]) |} ].
+
+(* sylvia/src/into_response.rs: IntoMsg / IntoResponse; `enabled_features` = the cargo features switched on *)
+Definition resp_program (enabled_features : list string) : program :=
+  [ {| fn_name := "SubMsg::into_msg"; fn_params := ["self"]; fn_consts := [];
+     fn_body := (EBlock [SLet (PVar "msg") (EMatch (EField (EVar "self") "msg") (cfg_arms enabled_features [([], ((PCon "CosmosMsg::Wasm" [(PVar "wasm")]), (ECon "CosmosMsg::Wasm" [(EVar "wasm")]))); ([], ((PCon "CosmosMsg::Bank" [(PVar "bank")]), (ECon "CosmosMsg::Bank" [(EVar "bank")]))); (["staking"], ((PCon "CosmosMsg::Staking" [(PVar "staking")]), (ECon "CosmosMsg::Staking" [(EVar "staking")]))); (["staking"], ((PCon "CosmosMsg::Distribution" [(PVar "distribution")]), (ECon "CosmosMsg::Distribution" [(EVar "distribution")]))); ([], ((PCon "CosmosMsg::Custom" [PWild]), (EMatch (ECon "Err" [(ECon "StdError::GenericErr" [(EConst (VStr "Custom Empty message should not be sent"))])]) [(PCon "Ok" [PVar "try_v"], EVar "try_v"); (PCon "Err" [PVar "try_e"], EReturn (ECon "Err" [ECon "From::from" [EVar "try_e"]]))]))); (["stargate"], ((PRec "CosmosMsg::Stargate" [("type_url", (PVar "type_url")); ("value", (PVar "value"))]), (ERecord "CosmosMsg::Stargate" [("type_url", (EVar "type_url")); ("value", (EVar "value"))] None))); (["stargate"], ((PCon "CosmosMsg::Ibc" [(PVar "ibc")]), (ECon "CosmosMsg::Ibc" [(EVar "ibc")]))); (["cosmwasm_2_0"], ((PCon "CosmosMsg::Any" [(PVar "any")]), (ECon "CosmosMsg::Any" [(EVar "any")]))); (["stargate"], ((PCon "CosmosMsg::Gov" [(PVar "msg")]), (ECon "CosmosMsg::Gov" [(EVar "msg")]))); ([], (PWild, (EReturn (ECon "Err" [(ECon "StdError::GenericErr" [(ECon "format" [(EConst (VStr "Unknown message variant: {:?}. Please make sure you are using up-to-date Sylvia version, and if so please issue this bug on the Sylvia repository.")); (EVar "self")])])]))))])); STail (ECon "Ok" [(ERecord "SubMsg" [("msg", (EVar "msg")); ("id", (EField (EVar "self") "id")); ("gas_limit", (EField (EVar "self") "gas_limit")); ("reply_on", (EField (EVar "self") "reply_on")); ("payload", (EField (EVar "self") "payload"))] None)])]) |};
+    {| fn_name := "Response::into_response"; fn_params := ["self"]; fn_consts := [];
+     fn_body := (EBlock [SLet (PVar "messages") (EMatch (EBlock [SLet (PVar "collect_src") (EField (EVar "self") "messages"); SLet (PVar "collect_acc") (EArr []); SLet (PVar "collect_res") (ECon "Ok" [EConst VUnit]); SExpr (EFor "collect_i" (EConst (VNat 0)) (ECall "len" [EVar "collect_src"]) (EBlock [STail (EIfLet (PCon "Ok" [PWild]) (EVar "collect_res") (EBlock [SLet (PVar "msg") (EIndex (EVar "collect_src") (EVar "collect_i")); STail (EMatch (ECall "SubMsg::into_msg" [(EVar "msg")]) [(PCon "Ok" [PVar "collect_v"], EAssign "collect_acc" [] (ECall "push" [EVar "collect_acc"; EVar "collect_v"])); (PCon "Err" [PVar "collect_e"], EAssign "collect_res" [] (ECon "Err" [EVar "collect_e"]))])]) (EConst VUnit))])); STail (EMatch (EVar "collect_res") [(PCon "Ok" [PWild], ECon "Ok" [EVar "collect_acc"]); (PCon "Err" [PVar "collect_e"], ECon "Err" [EVar "collect_e"])])]) [(PCon "Ok" [PVar "try_v"], EVar "try_v"); (PCon "Err" [PVar "try_e"], EReturn (ECon "Err" [ECon "From::from" [EVar "try_e"]]))]); SLet (PVar "resp") (ECall "add_attributes" [(ECall "add_events" [(ECall "add_submessages" [(ECall "Response::new" []); (EVar "messages")]); (EField (EVar "self") "events")]); (EField (EVar "self") "attributes")]); SExpr (EAssign "resp" [(LFld "data")] (EField (EVar "self") "data")); STail (ECon "Ok" [(EVar "resp")])]) |} ].
